@@ -159,6 +159,13 @@ def _np_op(op, a, p):
         return np.expand_dims(a[0], p["axis"])
     if op == "sumb":
         return np.sum(a[0]) + a[0]
+    if op == "csrmv":
+        vals_, cols_, rows_, x_ = a
+        out = np.zeros(len(rows_) - 1, dtype=np.float64)
+        for i in range(len(rows_) - 1):
+            for k in range(int(rows_[i]), int(rows_[i + 1])):
+                out[i] += vals_[k] * x_[int(cols_[k])]
+        return out
     if op == "lpcall":
         return 2 * a[0]
     if op == "fncall":
@@ -212,6 +219,11 @@ def _pt_op(op, a, p):
         return pt.expand_dims(a[0], p["axis"])
     if op == "sumb":
         return pt.sum(a[0]) + a[0]
+    if op == "csrmv":
+        # sparse matrix (three component arrays, any of which may have come
+        # from another rank) times a vector
+        mat = pt.make_csr_matrix((p["nrows"], p["ncols"]), a[0], a[1], a[2])
+        return mat @ a[3]
     if op == "lpcall":
         # a call to a hand-written loopy kernel (out[i] = 2*a[i])
         from pytato.loopy import call_loopy
@@ -232,7 +244,7 @@ def _mr_fn(x):
     return x * 3 + 1
 
 
-ARITY = {"lpcall": 1, "fncall": 1, "add": 2, "sub": 2, "mul": 2, "max": 2, "min": 2, "addc": 1, "mulc": 1,
+ARITY = {"csrmv": 4, "lpcall": 1, "fncall": 1, "add": 2, "sub": 2, "mul": 2, "max": 2, "min": 2, "addc": 1, "mulc": 1,
          "neg": 1, "where": 2, "roll": 1, "transpose": 1, "reshape": 1,
          "sum": 1, "amax": 1, "stack": 2, "concat": 2, "index": 1, "advidx": 1,
          "einsum": 2, "tofloat": 1, "expand": 1, "sumb": 1}
@@ -259,6 +271,9 @@ def _draw_params(rng, op, vals):
         return {}
     if op in ("addc", "mulc", "where"):
         return {"c": rng.randint(-3, 3)}
+    if op == "csrmv":
+        # only built by the "csr" template, which passes valid components
+        return None
     if op == "lpcall":
         # the kernel takes one-dimensional float64 data
         if nd != 1 or a.dtype != np.float64 or a.shape[0] == 0:
@@ -348,7 +363,7 @@ SHAPE_W = [2, 1, 3, 6, 3, 1, 4, 3, 1, 1, 2, 1, 1, 1]
 
 TEMPLATES = ("none", "none", "none", "ring", "star", "chain", "pingpong",
              "fanout", "multi", "forward", "crossing", "crossing",
-             "gathersum", "gathersum", "holdercross")
+             "gathersum", "gathersum", "holdercross", "csr")
 
 
 def _leaf_data(rng, shape, dtype):
@@ -635,6 +650,50 @@ class _Gen:
                     self.forced_outs.append(use)
                 else:
                     self.forced_outs.append(pay2)
+        elif name == "csr":
+            # a sparse matrix whose component arrays live on rank a; two or
+            # three of them travel to rank b, which multiplies
+            a, b = rng.sample(range(n), 2)
+            nrows, ncols = rng.randint(1, 3), rng.randint(1, 3)
+            counts = [rng.randint(0, ncols) for _ in range(nrows)]
+            rows_ = [0]
+            cols_: list = []
+            for c in counts:
+                cols_ += sorted(rng.sample(range(ncols), c))
+                rows_.append(rows_[-1] + c)
+            vals_ = [float(rng.randint(-4, 4)) for _ in cols_]
+
+            def leaf(r, data, dtype):
+                arr = np.array(data, dtype=dtype)
+                nm = f"in{r}_{self.ninputs[r]}"
+                self.ninputs[r] += 1
+                return self.add_val(
+                    {"rank": r, "op": "input", "args": [],
+                     "p": {"name": nm, "data": arr.tolist(), "dtype": dtype,
+                           "shape": list(arr.shape)},
+                     "stored": rng.random() < self.leaf_store_prob}, arr)
+            comps = [leaf(a, vals_, "float64"), leaf(a, cols_, "int64"),
+                     leaf(a, rows_, "int64")]
+            nremote = min(rng.choice([2, 2, 3]), max(self.budget, 0))
+            remote = set(rng.sample(range(3), nremote))
+            at_b = []
+            for k, cv in enumerate(comps):
+                if k in remote:
+                    at_b.append(self.add_comm(cv, b))
+                else:
+                    at_b.append(leaf(b, self.np[cv].tolist(),
+                                     str(self.np[cv].dtype)))
+            x = leaf(b, [float(rng.randint(-3, 3)) for _ in range(ncols)],
+                     "float64")
+            res = np.asarray(_np_op("csrmv", [self.np[i] for i in [*at_b, x]],
+                                    {}))
+            y = self.add_val({"rank": b, "op": "csrmv", "args": [*at_b, x],
+                              "p": {"nrows": nrows, "ncols": ncols},
+                              "stored": rng.random() < self.store_prob}, res)
+            self.forced_outs.append(y)
+            if self.budget > 0 and rng.random() < 0.5:
+                rv = self.add_comm(y, a)
+                self.add_op(a, "addc", [rv])
         elif name == "forward":
             order = list(range(n))
             rng.shuffle(order)
@@ -1179,6 +1238,10 @@ def probes(recipe):
         return None
     p["zero_size_message"] = any(_size(c["src_val"]) == 0 for c in lc)
     p["mpms"] = bool(recipe.get("mpms"))
+    p["csr_matmul_with_received_components"] = any(
+        vals[i]["op"] == "csrmv" and sum(
+            1 for a in vals[i]["args"][:3] if vals[a]["op"] == "recv") >= 2
+        for i in live)
     p["loopy_call_in_distributed_dag"] = any(
         vals[i]["op"] == "lpcall" for i in live)
     p["staple_on_intermediate"] = any(c["staple"][0] == "val" for c in lc)
